@@ -251,6 +251,7 @@ def run(res: Results, idx: Index, tier: str) -> None:
         res.violation("R-C07a", f"{PS}:{fp.node.lineno}", key, "some instance leaf / attribute does not contribute a value fingerprint: modules with different weights share one body under unique=True", fp.qualname)
     rule_d(res, idx)
     rule_e(res, idx)
+    rule_f(res, idx)
     vf = idx.func(PS, "FunctionPlugin._value_fingerprint")
     key = f"{PS}::FunctionPlugin._value_fingerprint::content"
     rets = [r for r in walk_no_nested(vf.node) if isinstance(r, ast.Return) and isinstance(r.value, ast.Tuple)]
@@ -403,3 +404,58 @@ def rule_d(res: Results, idx: Index) -> None:
                           "so two allocations with different keys can return the same identifier (the later definition silently replaces the earlier one)", fi.qualname)
         else:
             res.ok("R-C07d", site, key, f"counter key {sorted(nk)} is determined by the identifier components {sorted(nc)}", fi.qualname)
+
+
+# ---------------------------------------------------------------------------------------------- R-C07f
+FORMAL_PARAM_FIELDS = {"type", "shape", "dtype"}   # what the dedup key records of a positional input (R-C07a: shape + dtype)
+
+
+def rule_f(res: Results, idx: Index) -> None:
+    """A function body is shared by every call site whose key is equal, and the key describes a positional input by its
+    shape and element type only.  The body's formal parameters may therefore be built from exactly those facts of the
+    first call site's argument: any other field of the argument value that reaches the formal parameter (its constant
+    payload, its name, its metadata) — or the argument object itself used as the parameter — lets lowerings in the body
+    specialise on the first site, and later sites with an equal key silently compute with the first site's data."""
+    res.rule("R-C07f", "formal parameters of a function body copy only the fields of the call-site argument that the dedup key records (shape, element type)", floor=1)
+    FS = "jax2onnx/converter/function_scope.py"
+    f = idx.func(FS, "FunctionScope.begin")
+    params = [a.arg for a in f.node.args.args if a.arg != "self"]
+    if not params:
+        raise AnalysisError("FunctionScope.begin has no inputs parameter")
+    loops = [st for st in walk_no_nested(f.node) if isinstance(st, ast.For) and any(isinstance(n, ast.Name) and n.id == params[0] for n in ast.walk(st.iter))]
+    if not loops:
+        raise AnalysisError("FunctionScope.begin no longer iterates over its inputs")
+    n = 0
+    for lp in loops:
+        tnames = {x.id for x in ast.walk(lp.target) if isinstance(x, ast.Name)}
+        # the element variable: the target name that is not the enumerate index
+        elem = set(tnames)
+        if isinstance(lp.iter, ast.Call) and (call_name(lp.iter) or "") == "enumerate" and isinstance(lp.target, ast.Tuple) and lp.target.elts and isinstance(lp.target.elts[0], ast.Name):
+            elem.discard(lp.target.elts[0].id)
+        for ev in sorted(elem):
+            n += 1
+            key = f"{FS}::FunctionScope.begin::formal-from::{ev}"
+            bad = None
+            logged = {id(y) for c in ast.walk(lp) if isinstance(c, ast.Call) and (call_name(c) or "").split(".")[0] in ("logger", "logging", "_logger", "LOGGER", "warnings") for y in ast.walk(c)}
+            for x in ast.walk(lp):
+                if id(x) in logged:
+                    continue
+                if isinstance(x, ast.Attribute) and isinstance(x.value, ast.Name) and x.value.id == ev and isinstance(x.ctx, ast.Load) and x.attr not in FORMAL_PARAM_FIELDS:
+                    bad = (x, f"reads `{ev}.{x.attr}`")
+                    break
+                if isinstance(x, ast.Call):
+                    cn = call_name(x) or ""
+                    whole = [a for a in list(x.args) + [k.value for k in x.keywords] if isinstance(a, ast.Name) and a.id == ev]
+                    if whole and cn not in ("isinstance", "id", "type", "len"):
+                        bad = (x, f"passes the call-site argument `{ev}` itself to `{cn or src(x.func, 30)}(…)`")
+                        break
+                if isinstance(x, ast.Assign) and isinstance(x.value, ast.Name) and x.value.id == ev:
+                    bad = (x, f"aliases the call-site argument `{ev}`")
+                    break
+            if bad is not None:
+                res.violation("R-C07f", f"{FS}:{bad[0].lineno}", key, f"FunctionScope.begin {bad[1]} while building the formal parameter: the dedup key records only shape and element type of a positional "
+                              f"input, so call sites with an equal key would share a body specialised on the first site's argument", f.qualname)
+            else:
+                got = sorted({x.attr for x in ast.walk(lp) if isinstance(x, ast.Attribute) and isinstance(x.value, ast.Name) and x.value.id == ev})
+                res.ok("R-C07f", f"{FS}:{lp.lineno}", key, f"formal parameter built from {got} of the argument only", f.qualname)
+    res.analysed["formal_parameter_loops"] = n
